@@ -126,8 +126,9 @@ def area_deps(area):
     return deps
 
 
-def coq_build(area, clean=False, _seen=None):
-    """Full .vo build of an area (and the areas it depends on). Returns (ok, log)."""
+def coq_build(area, clean=False, _seen=None, targets=None):
+    """Full .vo build of an area (and the areas it depends on). Returns (ok, log).
+    targets: optional list of .vo files (closure built by make) instead of the whole area."""
     _seen = _seen if _seen is not None else set()
     if area in _seen:
         return True, ""
@@ -148,7 +149,7 @@ def coq_build(area, clean=False, _seen=None):
                 return False, o
         if clean:
             sh(["make", "clean"], cwd=d)
-        rc, o = sh(["make", "-j%d" % NCPU], cwd=d, timeout=3000)
+        rc, o = sh(["make", "-j%d" % NCPU] + (targets or []), cwd=d, timeout=3000)
     o = "\n".join(l for l in o.splitlines() if not l.startswith("Warning:") and l.strip())
     logs.append("== make %s (rc=%d)\n%s" % (area, rc, o[-6000:]))
     return rc == 0, "\n".join(logs)
@@ -331,6 +332,7 @@ class TieCheck:
       gen(tier): optional callable run before the Coq build (tie A: regenerate files)
     """
     pid = area = props = harness = None
+    coq_targets = None      # None: build the whole area; else extra .vo targets besides the props files
     shards = NCPU
     race = False
     extra_trust = []
@@ -362,7 +364,12 @@ class TieCheck:
         ok, lg = self.gen(tier)
         if not ok:
             problems.append(("generated-model", lg[-3000:]))
-        ok, lg = coq_build(self.area, clean=(tier == "thorough" and os.environ.get("VERIF_NO_CLEAN") != "1"))
+        plist0 = self.props if isinstance(self.props, (list, tuple)) else [self.props]
+        targets = None
+        if self.coq_targets is not None:
+            targets = [p[:-2] + ".vo" for p in plist0] + list(self.coq_targets)
+        ok, lg = coq_build(self.area, clean=(tier == "thorough" and os.environ.get("VERIF_NO_CLEAN") != "1" and targets is None),
+                           targets=targets)
         if not ok:
             problems.append(("coq-build", lg[-3000:]))
         plist = self.props if isinstance(self.props, (list, tuple)) else [self.props]
